@@ -45,10 +45,43 @@ Definition c_encode_signal (k : ckind) (start len v : Z) : Z :=
   | _ => 0
   end.
 
-Definition c_word (sigs : list (ckind * Z * Z)) (vals : list Z) : Z :=
-  fold_left Z.lor (map (fun sv => let '(k, s, l) := fst sv in c_encode_signal k s l (snd sv)) (combine sigs vals)) 0.
+(* ---------- big-endian signals: `endianness: "big"` in the signal block (the spelling can_c_writer.py reads) ---------- *)
+Definition is_big (p : piece) : bool :=
+  match lookup "endianness"%string (pext p) with
+  | Some (XStr s) => String.eqb s "big"
+  | _ => false
+  end.
+
+(* swap_uint16 / swap_uint32 / swap_uint64 on the low 16 / 32 / 64 bits *)
+Definition bswap16 (x : Z) : Z := (x mod 256) * 256 + (x / 256) mod 256.
+Definition bswap32 (x : Z) : Z := bswap16 (x mod 65536) * 65536 + bswap16 ((x / 65536) mod 65536).
+Definition bswap64 (x : Z) : Z := bswap32 (x mod 2 ^ 32) * 2 ^ 32 + bswap32 ((x / 2 ^ 32) mod 2 ^ 32).
 
 Definition cast_int (c x : Z) : Z := let y := x mod 2 ^ c in if 2 ^ (c - 1) <=? y then y - 2 ^ c else y.
+
+(* swap_bytes_int(val, U<c> / I<c>) with val a uint64_t: the 8-bit cases return val itself, the 16- and 32-bit cases truncate val to
+   the C type, swap, and convert the result back to uint64_t (the signed ones sign-extend), the 64-bit cases swap all of val *)
+Definition c_swap (signed : bool) (c val : Z) : Z :=
+  if c =? 8 then val
+  else if c =? 16 then (if signed then u64 (cast_int 16 (bswap16 (val mod 2 ^ 16))) else bswap16 (val mod 2 ^ 16))
+  else if c =? 32 then (if signed then u64 (cast_int 32 (bswap32 (val mod 2 ^ 32))) else bswap32 (val mod 2 ^ 32))
+  else bswap64 val.
+
+(* can_encode_signal_from_<T>(..., is_big_endian): the swap is applied to the bitfield AFTER set_bitfield has shifted it into place *)
+Definition c_encode_signal_e (k : ckind) (big : bool) (start len v : Z) : Z :=
+  let bitfield := c_encode_signal k start len v in
+  if big then
+    match k with
+    | KU c => c_swap false c bitfield
+    | KI c => c_swap true c bitfield
+    | KF32 => bswap32 bitfield
+    | KF64 => bswap64 bitfield
+    | _ => bitfield
+    end
+  else bitfield.
+
+Definition c_word (sigs : list (ckind * bool * Z * Z)) (vals : list Z) : Z :=
+  fold_left Z.lor (map (fun sv => let '(k, b, s, l) := fst sv in c_encode_signal_e k b s l (snd sv)) (combine sigs vals)) 0.
 
 (* bitfield_sign_conv *)
 Definition sign_conv (bf len : Z) : Z :=
@@ -65,20 +98,35 @@ Definition c_decode_signal (k : ckind) (start len word : Z) : Z :=
   | _ => 0
   end.
 
+(* can_decode_signal_as_<T>(msg, start, length, 1.0, 0.0, is_big_endian): the swap sits between the extraction and the return *)
+Definition c_decode_signal_e (k : ckind) (big : bool) (start len word : Z) : Z :=
+  if big then
+    let bf := Z.land (word / 2 ^ start) (mask len) in
+    match k with
+    | KU c => (c_swap false c (bf mod 2 ^ c)) mod 2 ^ c           (* uintC_t bitfield = (uintC_t)get_bitfield; bitfield = swap(bitfield) *)
+    | KI c =>                                                      (* int64_t bitfield = sign_conv(...); bitfield = swap(bitfield); return (intC_t) *)
+        let x := if c =? 64 then cast_int 64 bf else sign_conv bf len in
+        cast_int c (cast_int 64 (c_swap true c (u64 x)))
+    | KF32 => bswap32 (bf mod 2 ^ 32)
+    | KF64 => bswap64 word
+    | _ => 0
+    end
+  else c_decode_signal k start len word.
+
 (* the frame: .id is an 11-bit and .dlc a 4-bit bit-field, data = the word, little endian *)
 Record cframe := { cf_id : Z; cf_dlc : Z; cf_word : Z }.
 
-Definition sig_of (p : piece) : ckind * Z * Z := (kind_of p, pstart p, plen p).
+Definition sig_of (p : piece) : ckind * bool * Z * Z := (kind_of p, is_big p, pstart p, plen p).
 
 Definition c_encode_msg (frame_id : Z) (ps : list piece) (vals : list Z) : cframe :=
   let last_end := fold_left Z.max (map (fun p => (pstart p + plen p + 7) / 8) ps) 0 in
   {| cf_id := frame_id mod 2048; cf_dlc := last_end mod 16; cf_word := c_word (map sig_of ps) vals |}.
 
 Definition c_decode_msg (ps : list piece) (f : cframe) : list Z :=
-  map (fun p => c_decode_signal (kind_of p) (pstart p) (plen p) (cf_word f)) ps.
+  map (fun p => c_decode_signal_e (kind_of p) (is_big p) (pstart p) (plen p) (cf_word f)) ps.
 
-(* the subset that works: standard integer widths, enums, f64, and f32 at bit 0 *)
-Definition c_supported_piece (p : piece) : bool :=
+(* the subset that works: little-endian signals of standard integer widths, enums, f64, and f32 at bit 0 *)
+Definition c_supported_kind (p : piece) : bool :=
   match kind_of p with
   | KU c => plen p <=? c
   | KI c => plen p =? c
@@ -86,6 +134,8 @@ Definition c_supported_piece (p : piece) : bool :=
   | KF32 => (pstart p =? 0) && (plen p =? 32)
   | _ => false
   end.
+
+Definition c_supported_piece (p : piece) : bool := negb (is_big p) && c_supported_kind p.
 
 (* the value a struct member can hold *)
 Definition c_in_range (p : piece) (v : Z) : bool :=
